@@ -252,10 +252,21 @@ pub fn run() -> Report {
             let mut bad: Vec<Mismatch> = expect_success(&r);
             let _ = &all;
             let tv = judge_trace(&log, assign, s, e, *stride);
-            bad.extend(tv.problems.clone());
             let mp = model_peak(assign, s, e);
-            if bad.is_empty() && tv.peak != mp {
-                bad.push(("peak-open-files-differs-from-overlap-number".into(), format!("trace peak {} model overlap {}", tv.peak, mp)));
+            if tv.problems.first().map(|p| p.0 == "machinery-trace-markers").unwrap_or(false) && r.ok() {
+                // the run delivered other heights than the index model says (a different chain or range was selected):
+                // which heights are delivered is C02/C04's business, and without them the height->file map of this case
+                // says nothing about the files the run needs. Not judged here; counted.
+                acc.count("not-judged:delivered-heights-differ-from-the-layout-model", 1);
+                return;
+            }
+            bad.extend(tv.problems.clone());
+            // the statement is an upper bound: a file may be closed early and transparently reopened
+            if bad.is_empty() && tv.peak > mp {
+                bad.push(("peak-open-files-exceeds-overlap-number".into(), format!("trace peak {} model overlap {}", tv.peak, mp)));
+            }
+            if tv.peak < mp {
+                acc.count("note:peak-below-model-overlap(closed-early-and-reopened)", 1);
             }
             acc.outcomes.insert(h8(format!("{}", tv.peak).as_bytes()));
             acc.count(&format!("overlap:{}", mp), 1);
@@ -281,6 +292,12 @@ pub fn run() -> Report {
     );
     for p in parts {
         rep.merge(p);
+    }
+    // cases whose delivered heights differ from the layout model are not judged; on layouts WITHOUT competitor blocks that
+    // cannot happen unless the premise of this check is gone altogether
+    let nj = rep.counters.get("not-judged:delivered-heights-differ-from-the-layout-model").copied().unwrap_or(0);
+    if nj * 2 > rep.states {
+        rep.machinery(format!("{} of {} layouts could not be judged (delivered heights differ from the layout model)", nj, rep.states));
     }
     // large disjoint layouts
     for files in [200usize, 1200] {
@@ -311,6 +328,42 @@ pub fn run() -> Report {
         if !r.ok() || tv.peak != 1 || !tv.problems.is_empty() {
             rep.disagree("trace:large-disjoint-layout", format!("{} files: exit {:?} peak {} problems {:?}", files, r.code, tv.peak, tv.problems.first()), json!({"kind": "e1-described", "layout": format!("{} one-block files", files)}));
         }
+    }
+    // long chains: several blocks per file, more blocks than a difficulty period (2016) / a halving-sized stretch of heights,
+    // so that anything the driver does "every N blocks" (look-backs that reopen an old file, periodic re-reads) happens a few times
+    let long_layouts: Vec<(usize, usize)> = if thorough { vec![(6_200, 310), (12_200, 40), (70_000, 5_000)] } else { vec![(6_200, 310)] };
+    for (blocks, per_file) in long_layouts {
+        let wk = Worker::new(&root, 601);
+        let big = crate::c03::uniform_chain(blocks);
+        let assign: Vec<usize> = (0..blocks).map(|h| h / per_file).collect();
+        let world = world_for(&big, &assign);
+        if let Err(m) = wk.materialise(&world) {
+            rep.machinery(m);
+            continue;
+        }
+        rep.states += 1;
+        rep.nontrivial.insert(h8(format!("long{}/{}", blocks, per_file).as_bytes()));
+        let desc = json!({"kind": "e1-described", "layout": format!("{} blocks, {} per file, files in height order", blocks, per_file), "rlimit_nofile": n1});
+        let mut spec = RunSpec::new("bitcoin", "unspentcsvdump");
+        spec.rlimit_nofile = n1;
+        spec.env.push(("VERIF_RUN_TIMEOUT".into(), "600".into()));
+        let r: RunResult = wk.run(&spec);
+        rep.transitions += 1;
+        rep.count("long-layout-runs", 1);
+        if let Some((sig, detail)) = expect_success(&r).into_iter().next() {
+            rep.disagree(&format!("rlimit:long-layout:{}", sig), format!("{} blocks in files of {} under RLIMIT_NOFILE={}: {}", blocks, per_file, n1, detail.chars().take(300).collect::<String>()), desc.clone());
+        }
+        let _ = std::fs::remove_file(wk.dir.join("shim.log"));
+        let mut ts = trace_spec("unspentcsvdump", None, None, &wk);
+        ts.env.push(("VERIF_RUN_TIMEOUT".into(), "600".into()));
+        let r = wk.run(&ts);
+        rep.transitions += 1;
+        let log = std::fs::read_to_string(wk.dir.join("shim.log")).unwrap_or_default();
+        let tv = judge_trace(&log, &assign, 0, blocks as u64 - 1, 1);
+        if !r.ok() || tv.peak != 1 || !tv.problems.is_empty() {
+            rep.disagree("trace:long-layout", format!("{} blocks in files of {}: exit {:?} peak {} problems {:?}", blocks, per_file, r.code, tv.peak, tv.problems.first()), desc);
+        }
+        wk.cleanup();
     }
     let _ = std::fs::remove_dir_all(&root);
     rep
